@@ -223,11 +223,30 @@ func psAnswer(kind string, req *conformancev1.ClientCompatRequest) *conformancev
 		return &conformancev1.ClientCompatResponse{TestName: req.TestName, Result: &conformancev1.ClientCompatResponse_Response{Response: &conformancev1.ClientResponseResult{
 			Payloads: []*conformancev1.ConformancePayload{{Data: []byte("wrong")}}, Feedback: feedback}}}
 	case "clienterr":
-		return &conformancev1.ClientCompatResponse{TestName: req.TestName, Result: &conformancev1.ClientCompatResponse_Error{Error: &conformancev1.ClientErrorResult{Message: "client could not issue RPC"}}}
+		return &conformancev1.ClientCompatResponse{TestName: req.TestName, Result: &conformancev1.ClientCompatResponse_Error{Error: &conformancev1.ClientErrorResult{Message: psClientErrText()}}}
 	case "empty":
 		return &conformancev1.ClientCompatResponse{TestName: req.TestName}
 	case "never":
 		return nil
 	}
 	panic("bad answer kind " + kind)
+}
+
+// psClientErrMsg selects the text a scripted client puts into a client-reported error
+// ("" = an ordinary sentence): the error member of the result oneof is what makes it an
+// error, whatever the text.
+var psClientErrMsg string
+
+func psClientErrText() string {
+	switch psClientErrMsg {
+	case "":
+		return "client could not issue RPC"
+	case "empty":
+		return ""
+	case "blank":
+		return " \n\t\n"
+	case "multiline":
+		return "first line\n\n  second line\n"
+	}
+	panic("bad client error text " + psClientErrMsg)
 }
